@@ -220,6 +220,7 @@ func (r *Replica) attach() error {
 	r.Pid = r.W.NewPid()
 	r.C = NewControl(r.Name, r.W.Log)
 	r.C.Perm = r.Perm
+	RegisterFSControl(filepath.Join(r.gitDir(), "git-bug"), r.C)
 	r.Sim = NewSimRepo(&keyringRepo{GoGitRepo: r.Raw, k: r.Keys}, r.C, filepath.Join(r.gitDir(), "git-bug", "clocks"))
 	if r.Level == "cache" {
 		c, err := cache.NewRepoCacheNoEvents(r.Sim)
@@ -274,6 +275,7 @@ func (r *Replica) CloseClean() error {
 	} else if r.Raw != nil {
 		err = r.Raw.Close()
 	}
+	UnregisterFSControl(filepath.Join(r.gitDir(), "git-bug"), r.C)
 	r.Raw, r.Sim = nil, nil
 	r.W.EndPid(r.Pid)
 	return err
@@ -291,6 +293,9 @@ func (r *Replica) Kill() {
 func (r *Replica) drop() {
 	if r.Raw != nil {
 		_ = r.Raw.Close()
+	}
+	if r.C != nil {
+		UnregisterFSControl(filepath.Join(r.gitDir(), "git-bug"), r.C)
 	}
 	r.Cache, r.Raw, r.Sim = nil, nil, nil
 	r.W.EndPid(r.Pid)
